@@ -523,9 +523,10 @@ theorem asUnsafePath_safe (env : Env) (fd : Fd) (hp : 0 ≤ env.proc.fd) :
 theorem openFollowH_safe (env : Env) (h : ProcH) (base : Procfs.Base) (subpath : Bytes) (oflags : Nat)
     (hh : 0 ≤ h.fd) : Safe (Disc true) (Procfs.openFollowH env h base subpath oflags) FdOk := by
   unfold Procfs.openFollowH
+  dsimp only
+  generalize (if (Path.stripTrailingSlash subpath).2 = true then oflags ||| O_DIRECTORY else oflags) = fl
   split
   · exact FdOk_err _
-  dsimp only
   apply Safe.mbind (Q' := fun _ => True) (isOk_safe (readlinkH_safe env h base _ hh))
   · intro isLink _
     split
@@ -550,8 +551,7 @@ theorem openFollowH_safe (env : Env) (h : ProcH) (base : Procfs.Base) (subpath :
               apply Safe.mbind (Q' := fun _ => True)
                 (onErr_any (verifySameMnt_safe pm pfd trailing hpf ht) (close_safe _))
               · intro _ _
-                have hfollow : Safe (Disc true) (Sys.openatFollow pfd trailing
-                    (if (Path.stripTrailingSlash subpath).2 = true then oflags ||| O_DIRECTORY else oflags) 0) FdOk := by
+                have hfollow : Safe (Disc true) (Sys.openatFollow pfd trailing fl 0) FdOk := by
                   apply openatFollow_safe
                   intro _
                   refine Or.inr (Or.inl ⟨rfl, hpf, ht, ?_⟩)
